@@ -109,15 +109,18 @@ def gen_tree(rng, maxbody=8, maxdof=40, frames=True, tendons=True, p=None):
     nb = rng.randint(1, maxbody)
     handles = [0]
     kinds = {"free": 0, "ball": 0, "slide": 0, "hinge": 0}
+    path = []     # body indices from a root to the last created body: bodies are created in depth-first preorder, the
+                  # order in which the compiler numbers them, so that joint / dof / qpos layouts here match the model's
     for bi in range(nb):
-        if bi == 0 or rng.random() < p["top"]:
+        if bi == 0 or rng.random() < p["top"] or not path:
             pi = 0
         elif rng.random() < p["chain"]:
-            pi = len(handles) - 1
+            pi = path[-1]
         else:
-            pi = rng.randrange(1, len(handles))
+            pi = rng.choice(path)
         if pi and t.bodies[pi - 1]["mocap"]:
             pi = 0          # mocap bodies must be children of the world and we keep them leaf-like
+        path = (path[:path.index(pi) + 1] if pi else []) + [bi + 1]
         bh = newh()
         handles.append(bh)
         name = "b%d" % (bi + 1)
@@ -462,6 +465,27 @@ def judge_lagrange(dump, mqs, lag, joints, dev):
                 exp[a + r] += c[r]
     scale = max([abs(x) for x in bias] + [abs(x) for x in Mdot_v] + [abs(x) for x in Mv] + [1e-300])
     err = max(abs(a - b) for a, b in zip(bias, exp))
+    if err > 2e-5 * scale:
+        # KNOWN DEFECT CANDIDATE (same root cause as c07:jacDot-ball-followed-by-slide): mj_tendonBias uses mj_tendonDot ->
+        # mj_jacDot, which is wrong for the dofs of a ball joint followed by a slide joint on the same body.  Recognised by
+        # replacing the engine's tendon bias with armature * J^T (Jdot v), Jdot from central differences of ten_J.
+        ta, J0, tb = F(dump, "tenarm"), F(dump, "tenJ"), F(dump, "tbias")
+        Jp, Jm = F(mqs["v"][0], "tenJ"), F(mqs["v"][1], "tenJ")
+        tfd = [0.0] * n
+        for k in range(len(ta)):
+            jd = sum((Jp[k * n + i] - Jm[k * n + i]) / (2 * LAG_EPS) * v[i] for i in range(n))
+            for i in range(n):
+                tfd[i] += ta[k] * J0[k * n + i] * jd
+        err2 = max(abs((a - t0 + t1) - b) for a, t0, t1, b in zip(bias, tb, tfd, exp))
+        ballslide = any(j["type"] == "ball" and any(k["body"] == j["body"] and k["type"] == "slide" and k["dofadr"] > j["dofadr"]
+                                                    for k in joints) for j in joints)
+        if ballslide and any(tb) and err2 <= 2e-5 * scale:
+            dev.see("bias-equals-lagrangian(tendon bias from FD of ten_J)", err2, 2e-5 * scale)
+            fails.append(("c06:tendon-bias-ball-followed-by-slide",
+                          "qfrc_bias differs from the Lagrangian bias force only through mj_tendonBias: the tendon-armature bias "
+                          "armature * J^T (Jdot v) of the engine (mj_tendonDot -> mj_jacDot) is off by %.3g for a tendon attached "
+                          "below a ball joint that is followed by a slide joint on the same body" % max(abs(a - b) for a, b in zip(tb, tfd))))
+            return fails
     if dev.see("bias-equals-lagrangian", err, 2e-5 * scale) > 1:
         fails.append(("c06:bias-equals-lagrangian",
                       "qfrc_bias differs from Mdot v - 1/2 grad(v^T M v) + grad PE (+ w x Mv on quaternion blocks) formed by "
@@ -536,8 +560,27 @@ def judge_state(dump, jacs, rne1, rnd, st, dev, stats):
     if asym != 0:
         fails.append(("c06:fullM-symmetry", "mj_fullM is not symmetric (max |M_ij - M_ji| = %.3g)" % asym))
     ok, piv = cholesky_ok(full, n)
+    offtree_indefinite = False
     if not ok:
-        fails.append(("c06:fullM-positive-definite", "Cholesky of mj_fullM fails: pivot %.3g" % piv))
+        # KNOWN DEFECT CANDIDATE (reported under a stable key): mj_tendonArmature adds armature * J^T J only inside M's
+        # tree sparsity pattern; for a tendon that couples dofs of different branches the truncated rank-one term is
+        # indefinite and can make M itself indefinite although both the CRB matrix and CRB + armature * J^T J are
+        # positive definite
+        nt0, ta0, tj0 = len(g["tenarm"]), F(g, "tenarm"), F(g, "tenJ")
+        un = list(crb)
+        for k in range(nt0):
+            for i in range(n):
+                if tj0[k * n + i]:
+                    for j in range(n):
+                        un[i * n + j] += ta0[k] * tj0[k * n + i] * tj0[k * n + j]
+        if nt0 and cholesky_ok(crb, n)[0] and cholesky_ok(un, n)[0]:
+            offtree_indefinite = True
+            stats["M_indefinite_offtree_tendon"] = stats.get("M_indefinite_offtree_tendon", 0) + 1
+            fails.append(("c06:M-indefinite-offtree-tendon-armature",
+                          "mj_fullM is not positive definite (Cholesky pivot %.3g) although mj_crb's matrix and mj_crb + "
+                          "sum_t armature_t J_t^T J_t are: mj_tendonArmature drops the tendon inertia outside M's tree pattern" % piv))
+        else:
+            fails.append(("c06:fullM-positive-definite", "Cholesky of mj_fullM fails: pivot %.3g" % piv))
     # 2. M_crb = sum_b J_b^T I_b J_b + diag(armature)
     mass, inert, ximat = F(g, "body_mass"), F(g, "body_inertia"), F(g, "ximat")
     arm = F(g, "arm")
@@ -601,7 +644,7 @@ def judge_state(dump, jacs, rne1, rnd, st, dev, stats):
             rec_scale = max(rec_scale, sa)
     chk("LtDL-reconstructs-M", rec_err, 1e-11 * max(rec_scale, scale) * n, "L^T D L from qLD differs from mj_fullM")
     chk("qLDiagInv", max(abs(dinv[i] * D[i] - 1) for i in range(n)), 1e-14, "qLDiagInv is not 1/diag(D)")
-    if any(not (x > 0) for x in D):
+    if any(not (x > 0) for x in D) and not offtree_indefinite:
         fails.append(("c06:D-positive", "a pivot of the factorisation is not positive"))
     # 5. round trips
     rg = rnd
@@ -620,7 +663,7 @@ def judge_state(dump, jacs, rne1, rnd, st, dev, stats):
     bucket = "k<1e3" if kappa < 1e3 else "k<1e6" if kappa < 1e6 else "k>=1e6"
     stats["kappa_hist"][bucket] = stats["kappa_hist"].get(bucket, 0) + 1
     if kappa < 1e6:
-        chk("solveM-after-mulM", max(abs(a - b) for a, b in zip(x1, v)), 1e-8 * (max(abs(t) for t in v) + 1e-300),
+        chk("solveM-after-mulM", max(abs(a - b) for a, b in zip(x1, v)), (1e-8 + 1e-13 * kappa) * (max(abs(t) for t in v) + 1e-300),
             "mj_solveM(mj_mulM(v)) != v on a well-conditioned sample")
     # 6. bias force and Newton-Euler
     bias, rne0, tb = F(g, "qfrc_bias"), F(g, "rne0"), F(g, "tbias")
@@ -635,6 +678,16 @@ def judge_state(dump, jacs, rne1, rnd, st, dev, stats):
     chk("rne-acc-equals-Ma", max(abs((p1 - p0) - ma) for p1, p0, ma in zip(r1, rne0, mcrb_a)), 1e-10 * rscale,
         "mj_rne(a) - mj_rne(0) != (M_crb - diag(armature)) a")
     return fails
+
+
+def check_joint_order(tree, okline):
+    """the generator's joint order (hence its qpos / dof layout) must be the compiled model's"""
+    w = okline.split()
+    k = w.index("jnt_type")
+    got = [int(x) for x in w[k + 2:k + 2 + int(w[k + 1])]]
+    want = [{"free": 0, "ball": 1, "slide": 2, "hinge": 3}[j["type"]] for j in tree.joints]
+    if got != want:
+        raise common.Infra("generator joint order %s differs from the compiled model's %s" % (want, got))
 
 
 # ------------------------------------------------------------------------------------------------ run
@@ -664,6 +717,8 @@ def run_stream(ctx, impl, drv, trees, nstates, dev, stats, max_report=6):
                 continue
             left, right = o.split(" ->", 1)
             recs.append((left.strip(), right.strip(), i))
+        elif mt["kind"] == "model" and o.startswith("ok"):
+            check_joint_order(trees[owner[i]], o)
         elif mt["kind"] in ("model", "fwd") and not o.startswith("ok"):
             found.append({"key": "c06:engine-error", "what": "model/forward failed: " + o[:200],
                           "replay": {"model": trees[owner[i]].text(), "line": l[:300]}})
